@@ -350,6 +350,9 @@ def py_float_or_none(tok):
 
 def ctok(tok):
     val = py_float_or_none(tok)
+    if val is None and tok[-1:].lower() == 'm' and len(tok) > 1:
+        # xM of a data card: the value of the token is its multiplier
+        val = py_float_or_none(tok[:-1])
     if val is None or abs(val) > 1e15:
         return f'(mkTok {cstr(tok)} 0%float 0%Z)'
     return f'(mkTok {cstr(tok)} {cfloat(val)} {cz(int(val))})'
@@ -742,6 +745,68 @@ def f_tr_card_m(deck, rng):
         tr['entries'] = tr['entries'][:12] + [rng.choice([-1.0, -1.0, 0.0, 2.0])]
         out.append((d, f'tr{tr["id"]}'))
     return out
+
+
+def f_tr_card_m_twin(deck, rng):
+    '''A second TR card that differs from an earlier, valid one only by a 13th
+    entry m != 1 (a result remembered for the first 12 entries must not hide
+    the check).'''
+    out = []
+    for k, tr0 in enumerate(deck['trs']):
+        d = _clone(deck)
+        tr = d['trs'][k]
+        if len(tr['entries']) == 3:
+            tr['entries'] += [1.0, 0.0, 0.0, 0.0, 1.0, 0.0, 0.0, 0.0, 1.0] \
+                if not tr['star'] else [0.0, 90.0, 90.0, 90.0, 0.0, 90.0, 90.0, 90.0, 0.0]
+        twin = {'id': max(t['id'] for t in d['trs']) + 11, 'star': tr['star'],
+                'entries': tr['entries'][:12] + [rng.choice([-1.0, -1.0, 0.0, 2.0])]}
+        d['trs'].insert(k + 1 + rng.randrange(len(d['trs']) - k), twin)
+        out.append((d, f'tr{twin["id"]} = tr{tr["id"]} with m={twin["entries"][-1]}'))
+    return out
+
+
+def f_inline_m_twin(deck, rng):
+    '''TRCL=(... m) / FILL=n (... m), m != 1, repeating the twelve entries of a
+    TR card of the deck or of a valid inline transformation of another cell.'''
+    out = []
+    cards = [t for t in deck['trs'] if not t['star'] and len(t['entries']) >= 12]
+    for k in _trcl_candidates(deck)[:2]:
+        d = _clone(deck)
+        cell = d['cells'][k]
+        if cards and rng.random() < 0.6:
+            twelve = rng.choice(cards)['entries'][:12]
+            origin = 'a TR card'
+        else:
+            # a valid twin on another cell of the same deck, parsed earlier
+            twelve = _twelve(rng)
+            others = [c for j, c in enumerate(d['cells'])
+                      if j < k and j in _trcl_candidates(deck) and 'trcl' not in c['opts']]
+            if not others:
+                continue
+            _set_opt(others[0], None, 'trcl=(' + ' '.join(num(v) for v in twelve) + ')')
+            origin = f'cell {others[0]["id"]}'
+        text = 'trcl=(' + ' '.join(num(v) for v in twelve) + ' -1)'
+        if 'trcl' in cell['opts']:
+            _set_opt(cell, TRCL_RE, text)
+        else:
+            _set_opt(cell, None, text)
+        out.append((d, f'cell {cell["id"]} TRCL repeating {origin} with m=-1'))
+    for k in _fill_cells(deck, lattice=False)[:1]:
+        if not cards:
+            break
+        d = _clone(deck)
+        cell = d['cells'][k]
+        univ = re.search(r'fill=(\d+)', cell['opts']).group(1)
+        twelve = rng.choice(cards)['entries'][:12]
+        _set_opt(cell, FILL_N_RE, f'fill={univ} (' + ' '.join(num(v) for v in twelve) + ' -1)')
+        out.append((d, f'cell {cell["id"]} FILL repeating a TR card with m=-1'))
+    return out
+
+
+# fault classes for which the un-faulted deck is converted first in the same
+# process (a fault must not be hidden by state left by an earlier conversion)
+AFTER_VALID = {'tr_card_m', 'tr_card_m_twin', 'inline_m_twin', 'inline_fill_m',
+               'inline_trcl_m', 'mixed_fractions', 'facet_range'}
 
 
 def _fill_cells(deck, lattice=None):
@@ -1260,7 +1325,9 @@ def f_mixed_fractions(deck, rng):
         toks += ['8016', toks[fracs[0]]]
         idx = [i for i, t in enumerate(toks) if '=' not in t]
         fracs = idx[1::2]
-    j = rng.choice(fracs)
+    # flip a later fraction (first one keeps the sign of the card), or the
+    # first one: both orders of the two signs occur
+    j = rng.choice(fracs[1:]) if rng.random() < 0.7 else fracs[0]
     toks[j] = toks[j][1:] if toks[j].startswith('-') else '-' + toks[j]
     return [(d, f'm{d["mats"][k][0]} fraction {toks[j]}')]
 
@@ -1306,6 +1373,8 @@ def f_lattice_nsurf(deck, rng):
 # classifier or None)
 FAULTS = {
     'tr_card_m': (f_tr_card_m, ['tr']),
+    'tr_card_m_twin': (f_tr_card_m_twin, ['tr']),
+    'inline_m_twin': (f_inline_m_twin, ['tr', 'fill']),
     'inline_fill_m': (f_inline_fill_m, ['fill']),
     'inline_fill_m_star': (f_inline_fill_m_star, ['fill']),
     'inline_trcl_m': (f_inline_trcl_m, []),
